@@ -279,41 +279,46 @@ Definition cg_bounded (fuel : nat) (s : cgsettings) (k : consts) (fr : bool) (lo
              (mkCgs (clamp lo hi x) [] [] [] bs (-1) step true 0 0 0 inf (o0 O) minus_one []).
 
 (* ================= conjugate gradient, unbounded ================= *)
+Definition cgu_step (s : cgsettings) (k : consts) (fr : bool) (nx : Z) (q : cg_state) : result (T:=T) + cg_state :=
+  let need := q_utd q <? 1 in
+  let cf := if need then cost (q_x q) else q_cost q in
+  let g := if need then grad (q_x q) else q_gradient q in
+  let start := if q_it q =? 0 then cf else q_start q in
+  let q1 := mkCgs (q_x q) g (q_prev q) (q_dir q) [] 1 (q_step q) (q_restart q) (q_last_restart q) (q_it q) (if need then q_samples q + 1 else q_samples q) cf start (q_gn q)
+                  (if need then q_log q ++ [EvCostGradHess (q_x q)] else q_log q) in
+  if negb (isfinite cf) then inl (cg_finish s MInvalidCost q1)
+  else if any_nonfinite g then inl (cg_finish s MInvalidGradient q1)
+  else
+    let gn := norm2 g in
+    let log1 := q_log q1 ++ [EvProgress (q_it q1) (q_x q1) cf gn] in
+    let q2 := mkCgs (q_x q1) g (q_prev q1) (q_dir q1) [] 1 (q_step q1) (q_restart q1) (q_last_restart q1) (q_it q1) (q_samples q1) cf start gn log1 in
+    if oleb O gn (g_thr s) then inl (cg_finish s MSuccess q2)
+    else
+      let restart2 := q_restart q2 || (nx <? q_it q2 - q_last_restart q2) in
+      let beta := if fr then odiv O (dot g g) (dot (q_prev q2) (q_prev q2))
+                  else omax (odiv O (fold_left (oadd O) (map2 (omul O) g (vsub g (q_prev q2))) (o0 O)) (dot (q_prev q2) (q_prev q2))) (o0 O) in
+      let dir := if restart2 then vneg g else vsub (vscale beta (q_dir q2)) g in
+      let last_restart := if restart2 then q_it q2 else if oleb O beta (o0 O) then q_it q2 else q_last_restart q2 in
+      let o := line_search s k None (q_x q2) dir (q_step q2) (g_curv s) (oneg O (o1 O)) cf g 1 (q_samples q2) [] in
+      let log2 := log1 ++ ev_states (ls_log o) in
+      let '(status, restart5) :=
+        match ls_status o with
+        | MSuccess => (MNotYetConverged, false)
+        | st => if negb (last_restart =? q_it q2) then (MNotYetConverged, true) else (st, false)
+        end in
+      let it' := q_it q2 + 1 in
+      let status' := match status with MNotYetConverged => if g_max_it s <=? it' then MMaxIterations else MNotYetConverged | _ => status end in
+      let q3 := mkCgs (ls_x o) (ls_gradient o) g dir [] (ls_utd o) (omul O (ls_step o) (c2 k)) restart5 last_restart it' (ls_samples o) (ls_cost_fn o) start gn log2 in
+      match status' with
+      | MNotYetConverged => inr q3
+      | _ => inl (cg_finish s status' q3)
+      end.
 Fixpoint cgu_loop (fuel : nat) (s : cgsettings) (k : consts) (fr : bool) (nx : Z) (q : cg_state) : result (T:=T) :=
   match fuel with 0%nat => cg_result MOutOfFuel q (q_cost q) (q_log q) | S fuel' =>
-    let need := q_utd q <? 1 in
-    let cf := if need then cost (q_x q) else q_cost q in
-    let g := if need then grad (q_x q) else q_gradient q in
-    let start := if q_it q =? 0 then cf else q_start q in
-    let q1 := mkCgs (q_x q) g (q_prev q) (q_dir q) [] 1 (q_step q) (q_restart q) (q_last_restart q) (q_it q) (if need then q_samples q + 1 else q_samples q) cf start (q_gn q)
-                    (if need then q_log q ++ [EvCostGradHess (q_x q)] else q_log q) in
-    if negb (isfinite cf) then cg_finish s MInvalidCost q1
-    else if any_nonfinite g then cg_finish s MInvalidGradient q1
-    else
-      let gn := norm2 g in
-      let log1 := q_log q1 ++ [EvProgress (q_it q1) (q_x q1) cf gn] in
-      let q2 := mkCgs (q_x q1) g (q_prev q1) (q_dir q1) [] 1 (q_step q1) (q_restart q1) (q_last_restart q1) (q_it q1) (q_samples q1) cf start gn log1 in
-      if oleb O gn (g_thr s) then cg_finish s MSuccess q2
-      else
-        let restart2 := q_restart q2 || (nx <? q_it q2 - q_last_restart q2) in
-        let beta := if fr then odiv O (dot g g) (dot (q_prev q2) (q_prev q2))
-                    else omax (odiv O (fold_left (oadd O) (map2 (omul O) g (vsub g (q_prev q2))) (o0 O)) (dot (q_prev q2) (q_prev q2))) (o0 O) in
-        let dir := if restart2 then vneg g else vsub (vscale beta (q_dir q2)) g in
-        let last_restart := if restart2 then q_it q2 else if oleb O beta (o0 O) then q_it q2 else q_last_restart q2 in
-        let o := line_search s k None (q_x q2) dir (q_step q2) (g_curv s) (oneg O (o1 O)) cf g 1 (q_samples q2) [] in
-        let log2 := log1 ++ ev_states (ls_log o) in
-        let '(status, restart5) :=
-          match ls_status o with
-          | MSuccess => (MNotYetConverged, false)
-          | st => if negb (last_restart =? q_it q2) then (MNotYetConverged, true) else (st, false)
-          end in
-        let it' := q_it q2 + 1 in
-        let status' := match status with MNotYetConverged => if g_max_it s <=? it' then MMaxIterations else MNotYetConverged | _ => status end in
-        let q3 := mkCgs (ls_x o) (ls_gradient o) g dir [] (ls_utd o) (omul O (ls_step o) (c2 k)) restart5 last_restart it' (ls_samples o) (ls_cost_fn o) start gn log2 in
-        match status' with
-        | MNotYetConverged => cgu_loop fuel' s k fr nx q3
-        | _ => cg_finish s status' q3
-        end
+    match cgu_step s k fr nx q with
+    | inl r => r
+    | inr q' => cgu_loop fuel' s k fr nx q'
+    end
   end.
 Definition cg_unbounded (fuel : nat) (s : cgsettings) (k : consts) (fr : bool) (x : list T) (minus_one inf : T) : result (T:=T) :=
   let step := if oltb O (o0 O) (g_max_step s) then g_max_step s else o1 O in
